@@ -7,7 +7,7 @@ spec/rt/RtUniverse.tla  the closed universe: every data kind, extreme and negati
 spec/rt/RtTrace.tla     judgement of the recorded observations
 
 Every value of the universe is built as the Python object the interpreter uses, written with the real .w (output channel
-captured), read back with .rs, written again; atoms additionally go through x:$$x.  (value, read-back, same text) are judged by
+captured), read back with .rs, written again, and also written to a file channel and read back with .r; atoms additionally go through x:$$x.  (value, read-back, same text) are judged by
 TLC with RtAbs.
 """
 import contextlib
@@ -161,11 +161,15 @@ def run(tier, seed):
             k(f".w({name})")
             return out.getvalue()
         obs, meta = [], {}
+        fdir = __import__("tempfile").mkdtemp(prefix="rt-", dir=common.scratch())
+        fpath = os.path.join(fdir, "value.txt")
+        k["fpath"] = fpath
         for p in vals:
             v = p["v"]
             tid = len(obs)
             rec = {"tid": tid, "kind": "roundtrip", "v": v}
             info = {"value": show(v)}
+            held = None
             try:
                 k["v"] = build(v, k._backend)
                 held = canon(k["v"])              # the value the interpreter holds (a list of an integer and a real holds reals only:
@@ -185,6 +189,39 @@ def run(tier, seed):
             info["back"] = show(rec["back"])
             obs.append(rec)
             meta[tid] = (v, info)
+            # the same value through a FILE: .w to an output channel, .r from an input channel
+            tid = len(obs)
+            rec = {"tid": tid, "kind": "roundtrip", "v": held or v}
+            finfo = {"value": show(v) + " (through a file: .w to an output channel, .r from an input channel)"}
+            try:
+                k("oc1::.oc(fpath)")
+                k("op1::.tc(oc1)")
+                try:
+                    k(".w(v)")
+                finally:
+                    k(".tc(op1)")
+                    k(".cc(oc1)")
+                with open(fpath) as fh:
+                    text = fh.read()
+                finfo["text"] = text
+                k("ic1::.ic(fpath)")
+                k("ip1::.fc(ic1)")
+                try:
+                    back = k(".r()")
+                finally:
+                    k(".fc(ip1)")
+                    k(".cc(ic1)")
+                rec["back"] = canon(back)
+                k["u"] = back
+                text2 = written("u")
+                finfo["text2"] = text2
+                rec["sametext"] = text2 == text
+            except BaseException as ex:   # noqa
+                rec["back"] = {"t": "x", "v": f"raised {type(ex).__name__}: {str(ex)[:60]}"}
+                rec["sametext"] = False
+            finfo["back"] = show(rec["back"])
+            obs.append(rec)
+            meta[tid] = (v, finfo)
             if p.get("shared"):
                 tid = len(obs)
                 rec = {"tid": tid, "kind": "roundtrip", "v": v}
@@ -262,7 +299,7 @@ def run(tier, seed):
                       "lists and dictionaries, (thorough: all pairs of atoms); non-trivial = lists, dictionaries and strings")
     ev.sample({"value": meta[0][1]})
     ev.cov["checker_cmd"] = "tlc RtUniverse.tla ; .w / .rs / x:$$x in a KlongInterpreter ; tlc RtTrace.tla"
-    ev.assumptions += [".r (reading from the input channel) shares kg_read_array with .rs and is not driven separately",
+    ev.assumptions += [
                        "reals are compared exactly (shortest decimal text)", "integers beyond 64 bits are not in the universe"]
     return vd.finish()
 
